@@ -7,6 +7,7 @@
 //@@ prop: C10
 #![allow(dead_code, unused_imports)]
 use super::*;
+use alloc::{vec, vec::Vec}; // for generated concrete-playback tests (no_std crate)
 use crate::num::PosUsize;
 use jaq_core::ValT as _;
 
